@@ -128,6 +128,89 @@ for seed in range(6):
         for l in labs:
             check(S.connected(seg == l, 8), f'{tp} parent not 8-connected')
 
+# ---- group tiles: the stated geometric relation holds on the pixels (several seeds, every numbering / variant keeps the
+# label array), each parent is 4-connected, has two well separated peaks, parents of different tiles stay disjoint boxes
+def _rel_of(tp, seg, labs, k0):
+    a, b = labs[k0], labs[k0 + 1]
+    rel = S.bbox_relations(seg)
+    box = {x for x in rel['box_contains'] if set(x) == {a, b}}
+    adj = {x for x in rel['adjacent'] if set(x) == {a, b}}
+    other = {x for x in rel['box_contains'] | rel['adjacent'] if set(x) != {a, b}}
+    return a, b, box, adj, other
+
+
+def _same_tile_pairs(frame, labs):
+    out, k = [], 0
+    for t in frame:
+        if t in S.GROUP:
+            out.append({labs[k], labs[k + 1]})
+            k += 2
+        else:
+            k += 1
+    return out
+
+
+def _check_group(tp, seg, labs, k0, what, frame=None):
+    a, b, box, adj, other = _rel_of(tp, seg, labs, k0)
+    want = S.GROUP[tp]['relation']
+    if frame is not None:
+        other = {x for x in other if set(x) not in _same_tile_pairs(frame, labs)}
+    check(not other, f'{what}: parents of different tiles are related: {other}')
+    if want == 'interlock':
+        check(box == {(a, b), (b, a)} and not adj, f'{what}: not a contact-free mutual interlock: {box} {adj}')
+    elif want == 'nested':
+        check(box == {(a, b)} and not adj, f'{what}: box of the first parent must contain the second only: {box} {adj}')
+        ys, xs = np.nonzero(seg == a)
+        inner = seg[ys.min():ys.max() + 1, xs.min():xs.max() + 1]
+        check(np.count_nonzero(inner == b) == np.count_nonzero(seg == b), f'{what}: second parent not completely inside')
+    else:
+        check(box == {(a, b), (b, a)} and len(adj) == 1, f'{what}: not abutting + interlocking: {box} {adj}')
+        pa, pb = seg == a, seg == b
+        check((pa[:, :-1] & pb[:, 1:]).any() or (pa[:-1] & pb[1:]).any() or (pb[:-1] & pa[1:]).any(),
+              f'{what}: no 4-adjacent pixel pair')
+    for l in (a, b):
+        check(S.connected(seg == l, 4), f'{what}: parent {l} not 4-connected')
+        check(np.count_nonzero(seg == l) >= 20, f'{what}: parent {l} smaller than 20 pixels')
+
+
+check(S.parent_types(('B2', 'X2', 'S')) == ['B2', 'X2/0', 'X2/1', 'S'] and S.nparents(('L2', 'A2')) == 4, 'parent_types')
+toy_seg = np.array([[1, 1, 1, 1, 1, 0, 0],
+                    [1, 0, 0, 0, 0, 0, 0],
+                    [1, 0, 2, 0, 0, 3, 0],
+                    [1, 0, 0, 0, 0, 4, 3]])
+check(S.bbox_relations(toy_seg) == {'box_contains': {(1, 2), (3, 4)}, 'adjacent': {(3, 4)}}, 'bbox_relations on a toy array')
+for seed in range(8):
+    for tp in S.GROUP_TYPES:
+        for frame, k0 in (((tp,), 0), (('B2', tp), 1), ((tp, 'S', tp), 0), ((tp, 'S', tp), 3)):
+            for numb, variant in (('consec', 'pos'), ('gaprev', 'nonpos'), ('reversed', 'mixed')):
+                data, seg, labs = S.build(frame, numb, variant, seed)
+                check(sorted(np.unique(seg[seg > 0]).tolist()) == sorted(labs) and len(labs) == S.nparents(frame), 'group labels')
+                _check_group(tp, seg, labs, k0, f'{tp} seed {seed} frame {frame} {numb}', frame)
+                if variant == 'pos':
+                    for l in labs[k0:k0 + 2]:   # two peaks per parent at some level (plain flood fill), both >= npixels = 5
+                        pm = seg == l
+                        pats = {S.marker_pattern(data, pm, lev, 5, 4) for lev in np.linspace(data[pm].min(), data[pm].max(), 60)[1:-1]}
+                        check('MM' in pats, f'{tp} seed {seed}: parent {l} never shows two >= 5-pixel components: {sorted(pats)}')
+                if variant in ('nonpos', 'mixed'):
+                    mins = [data[seg == l].min() for l in labs]
+                    neg = [m <= 0 for m in mins]
+                    check(all(neg) if variant == 'nonpos' else neg == [k % 2 == 1 for k in range(len(labs))],
+                          f'{tp} {variant} seed {seed}: sign pattern of the segment minima is {neg}')
+# the same at the corners of the generic ranges (offset +-0.3, amplitudes x0.97 / x1.03)
+for tp in S.GROUP_TYPES:
+    for sx, sy, s0, s1 in itertools.product((-1, 1), repeat=4):
+        class _R:
+            q = [s0, s0, s1, s1]
+
+            def uniform(self, lo, hi, size=None):
+                if size == 2:
+                    return np.array([lo if sx < 0 else hi, lo if sy < 0 else hi])
+                return lo if self.q.pop(0) < 0 else hi
+        _R.q = [s0, s0, s1, s1]
+        img, masks = S.group_tile(tp, _R())
+        seg = np.where(masks[0], 1, 0) + np.where(masks[1], 2, 0)
+        _check_group(tp, seg, [1, 2], 0, f'{tp} corner {sx, sy, s0, s1}')
+
 # ---- raster-ordered components -------------------------------------------------
 m = np.array([[0, 0, 1, 0, 0],
               [1, 0, 0, 0, 1],
